@@ -12,7 +12,7 @@ ANCHOR_PREFIXES = ["expression::", "functions::", "types::fstr", "context::"]
 BOUNDS = ("operator trees of 2-4 binary operators over + - * / % in every parenthesisation shape, unary minus on leaves and sub-trees, rendered with minimal parentheses; operands symbolic "
           "(literal tokens, scalar variables, list variables); comparison (eq ne gt ge lt le) and logical (and or xor) word operators over arithmetic sub-terms, both outcomes of every comparison; "
           "46 built-in functions applied to symbolic arguments (transcendental ones as uninterpreted named operations, degrees conversion included); contexts: pass-through attribute, geometry attribute, "
-          "text, <var>, comment, <if test>, loop while; malformed expressions, the single-evaluation of random()/randint() (also inside loop count / while / for-data control expressions), number formatting around the 3-decimal rounding boundary and comparisons over NaN / infinities as ground queries; operand values k/2 in [-64,64]; non-finite results printed / stored / compared; condition forms (tiny values, lists, strings); comparisons between numbers that agree to three decimals; the same expression text repeated in one value; reuse attributes overriding target attributes")
+          "text, <var>, comment, <if test>, loop while; malformed expressions, the single-evaluation of random()/randint() (also inside loop count / while / for-data control expressions), number formatting around the 3-decimal rounding boundary and comparisons over NaN / infinities as ground queries; operand values k/2 in [-64,64]; non-finite results printed / stored / compared; condition forms (tiny values, lists, strings); comparisons between numbers that agree to three decimals; the same expression text repeated in one value; reuse attributes overriding target attributes; ground single-precision families: 31 fixed and 12 / 120 generated trees (depth <= 3 over + - * / % min max abs clamp mix, magnitudes up to 1e8, minimal parentheses) against an exact reference evaluator; over- and under-arity calls of every fixed-arity built-in; variables holding the text of a random call referenced 2-4 times in one expression / list / test")
 ASSUMPTIONS = ["reference grammar: list := expr (',' expr)*; logical := comparison (('and'|'or'|'xor') comparison)*; comparison := term (cmp term)?; term := factor (('+'|'-') factor)*; "
                "factor := primary (('*'|'/'|'%') primary)*; primary := number | variable | '(' list ')' | '-' primary | f '(' list ')' (docs/expressions.md)",
                "'%' is the Euclidean remainder (non-negative); trigonometric functions take/return degrees; mix(a,b,c) = a*(1-c)+b*c (GLSL)",
